@@ -124,16 +124,12 @@ static int encodeAsRaw(KSI_TLV *tlv) {
 		goto cleanup;
 	}
 
-	if (tlv->buffer == NULL) {
-		buf_size = 0xffff + 1;
-		buf = KSI_calloc(buf_size, 1);
-		if (buf == NULL) {
-			KSI_pushError(tlv->ctx, res = KSI_OUT_OF_MEMORY, NULL);
-			goto cleanup;
-		}
-	} else {
-		buf = tlv->buffer;
-		buf_size = tlv->buffer_size;
+	/* Always encode into a new buffer: the nested elements of a parsed TLV still point into the old one. */
+	buf_size = 0xffff + 1;
+	buf = KSI_calloc(buf_size, 1);
+	if (buf == NULL) {
+		KSI_pushError(tlv->ctx, res = KSI_OUT_OF_MEMORY, NULL);
+		goto cleanup;
 	}
 
 	payloadLength = buf_size;
@@ -143,14 +139,16 @@ static int encodeAsRaw(KSI_TLV *tlv) {
 		goto cleanup;
 	}
 
+	KSI_TLVList_free(tlv->nested);
+	tlv->nested = NULL;
+
+	/* Nothing refers to the old buffer any more. */
+	KSI_free(tlv->buffer);
 	tlv->buffer = buf;
 	tlv->buffer_size = buf_size;
 
 	tlv->datap = buf;
 	tlv->datap_len = payloadLength;
-
-	KSI_TLVList_free(tlv->nested);
-	tlv->nested = NULL;
 
 	buf = NULL;
 
@@ -158,8 +156,7 @@ static int encodeAsRaw(KSI_TLV *tlv) {
 
 cleanup:
 
-	/* The buffer that still belongs to the TLV must not be released here. */
-	if (tlv == NULL || buf != tlv->buffer) KSI_free(buf);
+	KSI_free(buf);
 
 	return res;
 }
